@@ -1,6 +1,7 @@
 package main
 
 import (
+	"reflect"
 	"bytes"
 	"encoding/json"
 	"fmt"
@@ -48,7 +49,7 @@ func genSignerSpec(r *Rng, cheap bool) SignerSpec {
 // dispatch looks at key 265 only, so such a profile is by design not reachable
 // through Evidence.UnmarshalCOSE and the binding clause would compare apples
 // with pears.
-var profFamilies = []string{"p1", "p2", "p1", "p2", "xp2", "xw", "xu", "xc"}
+var profFamilies = []string{"p1", "p2", "p1", "p2", "xp2", "xw", "xu", "xc", "xk"}
 
 func (evidWorld) Gen(prop, tier string, idx int, r *Rng) *Trace {
 	var cfg EvidCfg
@@ -124,7 +125,7 @@ func (evidWorld) Gen(prop, tier string, idx int, r *Rng) *Trace {
 				op.A = cfg.Signers[r.Intn(nSig)].Key
 			}
 		case "mutate":
-			op.A = r.Intn(10)
+			op.A = r.Intn(14)
 			op.B = r.Intn(1 << 20)
 		}
 		if r.Chance(faultRate, 8) {
@@ -641,10 +642,12 @@ func (evidWorld) Exec(prop string, t *Trace) *Result {
 				break
 			}
 			c := e.Claims
-			switch op.A % 10 {
-			case 5, 6, 7, 8, 9:
+			switch op.A % 14 {
+			case 5, 6, 7, 8, 9, 10, 11, 12, 13:
 				// the owner edits exported fields of its claims object directly: states no setter can produce
-				fieldMutate(c, op.A%10)
+				// (10, 11: a component, through the pointer the getter hands out; 12, 13: the list amended
+				// in place - one more component through the container's Add, a component's own setter)
+				fieldMutate(c, op.A%14)
 			case 0:
 				_ = c.SetClientID(int32(op.B))
 			case 1:
@@ -661,9 +664,9 @@ func (evidWorld) Exec(prop string, t *Trace) *Result {
 			if c08 && shadow.Claims != nil && shadow.Claims != c {
 				// decoded separately: keep the shadow's copy in step
 				sc := shadow.Claims
-				switch op.A % 10 {
-				case 5, 6, 7, 8, 9:
-					fieldMutate(sc, op.A%10)
+				switch op.A % 14 {
+				case 5, 6, 7, 8, 9, 10, 11, 12, 13:
+					fieldMutate(sc, op.A%14)
 				case 0:
 					_ = sc.SetClientID(int32(op.B))
 				case 1:
@@ -850,6 +853,9 @@ func pairGate(res *Result, i int, name string, b []byte, d, dv func([]byte) (psa
 		return
 	}
 	gateValid++
+	if e2 == nil && c2 != nil && sameObject(c1, c2) {
+		res.violate("C08", "decgate-"+name+"-differs", "same-object", i, "the validating %s decoder handed back the very object an earlier plain decode of the same bytes returned: it validated a caller-owned object, not what is on the wire", name)
+	}
 	if e2 != nil {
 		res.violate("C08", "decgate-"+name+"-rejects-valid", "", i, "the validating %s decoder rejected what the plain decoder + Validate() accept: %v; input %x", name, e2, head(b, 512))
 	} else if s2 := structObs(c2); s1 != s2 {
@@ -858,6 +864,16 @@ func pairGate(res *Result, i int, name string, b []byte, d, dv func([]byte) (psa
 		res.violate("C08", "decgate-"+name+"-differs", "", i, "validating and plain %s decode disagree:\n %s\n %s", name, a, bb)
 	}
 	return
+}
+
+// sameObject: do two interface values hold the same pointer?
+func sameObject(a, b any) (same bool) {
+	defer func() { _ = recover() }()
+	va, vb := reflect.ValueOf(a), reflect.ValueOf(b)
+	if va.Kind() != reflect.Ptr || vb.Kind() != reflect.Ptr || va.IsNil() || vb.IsNil() {
+		return false
+	}
+	return va.Pointer() == vb.Pointer()
 }
 
 // allPairGates runs the three decoder pairs on one delivered byte string.
@@ -921,6 +937,8 @@ func decodeGates(res *Result, i int, tok []byte) (gateInvalid, gateValid int) {
 		gateValid++
 		if dve != nil {
 			res.violate("C08", "decgate-cose-rejects-valid", "", i, "DecodeAndValidateEvidenceFromCOSE rejected what DecodeEvidenceFromCOSE + Validate accept: %v", dve)
+		} else if dv == d || sameObject(d.Claims, dv.Claims) {
+			res.violate("C08", "decgate-cose-differs", "same-object", i, "DecodeAndValidateEvidenceFromCOSE handed back the very object an earlier DecodeEvidenceFromCOSE of the same bytes returned")
 		} else if sV := structObs(dv.Claims); sD != sV {
 			res.violate("C08", "decgate-cose-differs", "struct", i, "validating and plain COSE decode hand back differently populated claims-sets:\n plain:      %s\n validating: %s", sD, sV)
 		} else if a, b := fullObs(d.Claims), fullObs(dv.Claims); a != b {
@@ -1086,6 +1104,8 @@ func fieldMutate(c psatoken.IClaims, code int) {
 		p2 = &x.P2Claims
 	case *XWClaims:
 		p2 = &x.P2Claims
+	case *XKClaims:
+		p2 = &x.P2Claims
 	}
 	one := uint(1)
 	switch code {
@@ -1121,6 +1141,53 @@ func fieldMutate(c psatoken.IClaims, code int) {
 		} else if p2 != nil {
 			p2.BootSeed = &b
 		}
+	case 10, 11:
+		// a component edited in place through the pointer GetSoftwareComponents hands out
+		// (the container stores the caller's pointers)
+		scs, err := c.GetSoftwareComponents()
+		if err != nil || len(scs) == 0 {
+			return
+		}
+		var sc *psatoken.SwComponent
+		switch x := scs[len(scs)-1].(type) {
+		case *psatoken.SwComponent:
+			sc = x
+		case *XSwComponent:
+			sc = &x.SwComponent
+		case *XSwExt:
+			sc = &x.SwComponent
+		}
+		if sc == nil {
+			return
+		}
+		if code == 10 {
+			sc.SignerID = nil
+		} else {
+			b := []byte{1, 2, 3}
+			sc.MeasurementValue = &b
+		}
+	case 12:
+		// one more (valid) component through the container's own Add
+		var cont psatoken.ISwComponents
+		if p1 != nil {
+			cont = p1.SwComponents
+		} else if p2 != nil {
+			cont = p2.SwComponents
+		}
+		if cont == nil || cont.IsEmpty() {
+			return
+		}
+		extra := buildSwComponent(SwDesc{MVal: hp(bytes.Repeat([]byte{0xad}, 32)), Signer: hp(bytes.Repeat([]byte{0xde}, 32)), Version: sp("added-in-place")})
+		if err := cont.Add(extra); err != nil {
+			_ = cont.Add(&XSwExt{SwComponent: *extra})
+		}
+	case 13:
+		scs, err := c.GetSoftwareComponents()
+		if err != nil || len(scs) == 0 {
+			return
+		}
+		_ = scs[0].SetVersion("1.2.3-amended")
+		_ = scs[0].SetMeasurementDesc("amended in place")
 	}
 }
 
@@ -1144,6 +1211,8 @@ func decodeLike(like psatoken.IClaims, payload []byte) (out psatoken.IClaims) {
 		fresh = &XP2Claims{P2Claims: psatoken.P2Claims{CanonicalProfile: x.CanonicalProfile}}
 	case *XWClaims:
 		fresh = &XWClaims{P2Claims: psatoken.P2Claims{CanonicalProfile: x.CanonicalProfile}}
+	case *XKClaims:
+		fresh = &XKClaims{P2Claims: psatoken.P2Claims{CanonicalProfile: x.CanonicalProfile}}
 	default:
 		return nil
 	}
